@@ -114,6 +114,10 @@ type controller struct {
 
 	// The controller's sources, by watched GVK.
 	sources map[WatchID]*StoppableSource
+
+	// True once the controller has been stopped. A caller may still hold a
+	// pointer to a stopped controller that it looked up before the stop.
+	stopped bool
 }
 
 // A WatchGarbageCollector periodically garbage collects watches.
@@ -275,6 +279,7 @@ func (e *ControllerEngine) Stop(ctx context.Context, name string) error {
 	}
 
 	// Stop and delete the controller.
+	c.stopped = true
 	c.cancel()
 	delete(e.controllers, name)
 
@@ -396,6 +401,21 @@ func (e *ControllerEngine) StartWatches(name string, ws ...Watch) error {
 	// read lock, so we compute everything again.
 	c.mx.Lock()
 	defer c.mx.Unlock()
+
+	// The controller may have been stopped since we looked it up. Don't start
+	// watches for a controller that nothing will ever stop again.
+	if c.stopped {
+		return errors.Errorf("controller %q is not running", name)
+	}
+
+	// Another Goroutine may also have started one of these watches, and with it
+	// an informer, since we computed the set of active informers. Compute it
+	// again now that we hold the write lock, or we'd start the watch twice.
+	a = e.infs.ActiveInformers()
+	activeInformer = make(map[schema.GroupVersionKind]bool, len(a))
+	for _, gvk := range a {
+		activeInformer[gvk] = true
+	}
 
 	// Start new sources.
 	for i, w := range ws {
